@@ -72,7 +72,9 @@ Expect(calls) ==
       ELSE IF c.v = "Finish" THEN
         IF c.p = "RF" THEN [kind |-> "finish", sent |-> {"backend"}, bk |-> {1}, closed |-> {TRUE}]
         ELSE IF c.p = "RR" THEN [kind |-> "finish", sent |-> {AnyOne}, bk |-> {1}, closed |-> {TRUE}]
-        ELSE [kind |-> "finish", sent |-> {AnyOne}, bk |-> {0, 1}, closed |-> {TRUE}]
+        \* before the forward: the request is finished here (mod_waf / mod_prison block with this verdict):
+        \* it must not reach a backend
+        ELSE [kind |-> "finish", sent |-> {AnyOne}, bk |-> {0}, closed |-> {TRUE}]
       ELSE IF c.v = "Redirect" THEN
         [kind |-> "redirect", sent |-> {Tag("redirect", c)}, bk |-> IF c.p = "RR" THEN {1} ELSE {0},
          closed |-> {TRUE, FALSE}]
